@@ -1,7 +1,7 @@
 (* Checkers evaluated by the correspondence run: each returns the indices of
    the cases on which the model and the implementation's observed output
    differ (or on which the specification-side predicate fails). *)
-From V Require Import Common.Base Common.Utf8 C07.Vlq C07.SpecMap C07.Mappings C07.Shift C07.LineCol C07.Builder C07.JoinAll.
+From V Require Import Common.Base Common.Utf8 C07.Vlq C07.SpecMap C07.Mappings C07.Shift C07.LineCol C07.Builder C07.JoinAll C07.BuilderIn.
 
 Fixpoint mism_from {A} (f : A -> bool) (l : list A) (i : nat) : list nat :=
   match l with
@@ -165,3 +165,23 @@ Definition joinall_ok (c : list (bytes * Z * Z * list Z * bool * Z * bool * (Z *
   let '(rs, gb) := c in
   match join_all (map mkjres rs) with Some m => zlist_eqb m gb | None => false end.
 Definition check_joinall := mismatches joinall_ok.
+
+(* ---- ChunkBuilder with an input source map ---- *)
+(* (original text, input mappings as 6-lists, input Names ids, events, final delta,
+    Go: data, first name offset or -1, names ids, end state 6 fields, end has_name, final column, should ignore) *)
+Definition builderin_ok (c : bytes * list (list Z) * list Z * list (Z * Z * bytes) * bytes * bytes * Z * list Z * list Z * bool * Z * bool) : bool :=
+  let '(text, ms, inames, evs, fin, gdata, gfno, gnames, gend, gendh, gcolumn, gign) := c in
+  let ts := GenerateLineOffsetTables text in
+  let ism := Some (map mkmap ms, inames) in
+  match run_builder_g ism ts (bst0_g ism) evs with
+  | None => false
+  | Some b =>
+    let '(data, fno, names, endst, fcol, ign) := GenerateChunk b fin in
+    zlist_eqb data gdata
+    && (match fno with Some o => o =? gfno | None => gfno =? -1 end)
+    && zlist_eqb names gnames
+    && zlist_eqb [gline endst; gcol endst; sidx endst; oline endst; ocol endst; oname endst] gend
+    && Bool.eqb (has_name endst) gendh
+    && (fcol =? gcolumn) && Bool.eqb ign gign
+  end.
+Definition check_builderin := mismatches builderin_ok.
